@@ -81,7 +81,7 @@ func NewRequestContext(ctx context.Context, req *envoy_auth.CheckRequest) *Reque
 		ctx:        ctx,
 		ips:        clientIPs,
 		reqMethod:  req.GetAttributes().GetRequest().GetHttp().GetMethod(),
-		reqHeaders: canonicalizeHeaders(req.GetAttributes().GetRequest().GetHttp().GetHeaders()),
+		reqHeaders: requestHeaders(req.GetAttributes().GetRequest().GetHttp()),
 		reqURL: &url.URL{
 			Scheme:   req.GetAttributes().GetRequest().GetHttp().GetScheme(),
 			Host:     req.GetAttributes().GetRequest().GetHttp().GetHost(),
@@ -94,6 +94,31 @@ func NewRequestContext(ctx context.Context, req *envoy_auth.CheckRequest) *Reque
 		upstreamHeaders: make(http.Header),
 		upstreamCookies: make(map[string]string),
 	}
+}
+
+func requestHeaders(req *envoy_auth.AttributeContext_HttpRequest) map[string]string {
+	result := canonicalizeHeaders(req.GetHeaders())
+
+	// if envoy is configured to encode raw headers, the headers attribute
+	// is not set. The headers are sent in the header_map attribute instead
+	for _, header := range req.GetHeaderMap().GetHeaders() {
+		key := http.CanonicalHeaderKey(header.GetKey())
+
+		value := header.GetValue()
+		if len(value) == 0 {
+			value = stringx.ToString(header.GetRawValue())
+		}
+
+		if present, ok := result[key]; ok {
+			// same as envoy does for the headers attribute
+			separator := x.IfThenElse(key == "Cookie", "; ", ",")
+			value = present + separator + value
+		}
+
+		result[key] = value
+	}
+
+	return result
 }
 
 func canonicalizeHeaders(headers map[string]string) map[string]string {
